@@ -87,6 +87,12 @@ class C20(Prop):
             r.rank = rk
             r.meta["distributedInfo"]["rank"] = rk
             recs.append(r.__dict__)
+        if rng.random() < 0.4:
+            # events that carry an integer "rank" argument of their own (collective operators do)
+            for r in recs:
+                for e in r["events"]:
+                    if e.get("cat") == "cpu_op" and rng.random() < 0.3:
+                        e.setdefault("args", {})["rank"] = rng.randrange(0, 64)
         nometa = rng.random() < 0.4          # recorded without distributedInfo: the rank is added by update_trace_rank only
         if nometa:
             for r in recs:
